@@ -129,7 +129,7 @@ func chains(thorough bool) []Chain {
 }
 
 func run(r *ev.Run) {
-	r.Rule("E3 (one process per plugin chain): grammar-generated seeds - v4: message type {DISCOVER, REQUEST, 5 others, none} x hlen {0,1,5,6,8,16,17,255} x PRL {absent, empty, full} x option sets x {giaddr, ciaddr, broadcast}; v6: 16 message types x client-id {absent, LL, LLT, EN, UUID, malformed} x {IA_NA, IA_PD with 9 hint shapes, ORO, rapid commit, server-id own/other} x relay depth 0..4, 32 and the deepest nesting that fits a datagram, plus all byte strings of length 0..2 - through the real HandleMsg4/6 under every single built-in plugin, the example-config chains and full chains in 3 rotations (thorough: every ordered pair), with listener {bound, unbound} x control message {nil, interface}. For the full chains also the complete 1-deviation closure of the seeds (every truncation, every single-bit flip, every byte replaced by 00/01/7f/80/ff, every adjacent option swap). E1: every sequence of length <= 2 (thorough 3) over the state-relevant datagrams on fresh range / prefix instances. Oracle: no panic, at most one reply, no lease-plugin mutex left held, a final well-formed probe is still handled, no datagram takes longer than the watchdog. Class = chain mode/proto/outcome.")
+	r.Rule("E3 (one process per plugin chain): grammar-generated seeds - v4: message type {DISCOVER, REQUEST, 5 others, none} x hlen {0,1,5,6,8,16,17,255} x PRL {absent, empty, full} x option sets x {giaddr, ciaddr, broadcast}; v6: 16 message types x client-id {absent, LL, LLT, EN, UUID, malformed} x {IA_NA, IA_PD with 9 hint shapes, ORO, rapid commit, server-id own/other} x relay depth 0..4, 32 and the deepest nesting that fits a datagram, plus all byte strings of length 0..2 - through the real HandleMsg4/6 under every single built-in plugin, the example-config chains and full chains in 3 rotations (thorough: every ordered pair), with listener {bound, unbound} x control message {nil, interface}. For the full chains also the complete 1-deviation closure of the seeds (every truncation, every single-bit flip, every byte replaced by 00/01/7f/80/ff, every adjacent option swap); thorough adds every pair of byte substitutions in the option area of 12 seeds per chain. E1: every sequence of length <= 2 (thorough 3) over the state-relevant datagrams on fresh range / prefix instances. Oracle: no panic, at most one reply, no lease-plugin mutex left held, a final well-formed probe is still handled, no datagram takes longer than the watchdog. Class = chain mode/proto/outcome.")
 	r.Assume("datagrams further than one deviation from a seed, chains of 3+ plugins other than the listed ones, and the real socket write are not explored; a hang is a datagram exceeding a 20 s watchdog that reproduces when re-run alone")
 	cs := chains(!r.Quick())
 	r.Set("chains", int64(len(cs)))
@@ -474,6 +474,47 @@ func worker(args []string) int {
 			}
 		}
 		r.Add("mutants", n)
+		if alive && thorough {
+			// 2-deviation closure on a reduced set: every PAIR of byte substitutions
+			// (values 00/01/7f/80/ff) at two positions of the option area (and the
+			// hardware-address-length / hop-count bytes) of 12 seeds
+			var n2 int64
+			for _, s := range reduced(seeds, 12) {
+				lo := 4
+				if c.Proto == 4 {
+					lo = 240
+				}
+				var pos []int
+				if c.Proto == 4 {
+					pos = append(pos, 2, 3)
+				}
+				for i := lo; i < len(s) && len(pos) < 72; i++ {
+					pos = append(pos, i)
+				}
+				vals := []byte{0x00, 0x01, 0x7f, 0x80, 0xff}
+				for a := 0; a < len(pos) && alive; a++ {
+					for b := a + 1; b < len(pos) && alive; b++ {
+						for _, va := range vals {
+							for _, vb := range vals {
+								if s[pos[a]] == va || s[pos[b]] == vb {
+									continue
+								}
+								m := append([]byte{}, s...)
+								m[pos[a]], m[pos[b]] = va, vb
+								n2++
+								if alive = in.handle(r, m, 0, realIdx, nil, class+"/mutant2"); !alive {
+									break
+								}
+							}
+							if !alive {
+								break
+							}
+						}
+					}
+				}
+			}
+			r.Add("mutants_two_deviations", n2)
+		}
 	}
 	if alive {
 		// the server must still answer the probe client (nothing is wedged)
